@@ -493,3 +493,22 @@ Theorem C07_order_inv_move_all :
   exists n' items', w_nodes w' h = Some n' /\ n_type n' = n_type n /\
     items_of w' (n_content n') = Some items' /\ Ordered T (n_type n) v items'.
 Proof. exact order_inv_move_all. Qed.
+
+(* ------------------------------------------------------------------ copy across versions: nested element without SHORT-NAME *)
+(* [F witness] known finding C07 copy-unnamed-into-named-version, on the current tables, in a world built by the editing calls:
+   the copy of NETWORK-CONFIGURATIONS (built in an AUTOSAR_00045 file) below LOG-AND-TRACE-INSTANTIATION of an AUTOSAR_00046 file
+   succeeds; the nested ETHERNET-NETWORK-CONFIGURATION k is listed by the copy's type with k's own type, that type is
+   identifiable in the version of the target, k has no content at all (no SHORT-NAME) — the loader reports
+   RequiredSubelementMissing — and create_sub_element refuses to make the same element at the same place (ItemNameRequired).
+   The history uses the validator that accepts every item name (ok_check). *)
+Theorem C07_copy_keeps_unnamed_nested_refuted :
+  forall (tab_el tab_en : nametab) (root_attrs : list (N * cdata)),
+  exists (w : world) (h other c : id) (w' : world) (nc nk : node) (k : id) (v : N) (w2 : world),
+    run_ops RT tab_el tab_en ok_check REAL_LATEST root_attrs unnamed_ops (mkWorld (fun _ => None) 0 [] []) = Val w /\
+    e_create_copied_sub_element RT REAL_LATEST h other w = Val (OK c, w') /\
+    min_version REAL_LATEST h w' = Val (OK v, w') /\
+    w_nodes w' c = Some nc /\ In (CElem k) (n_content nc) /\ w_nodes w' k = Some nk /\
+    is_named_in_version RT (n_type nk) v = Val true /\ n_content nk = [] /\
+    find_sub_element RT (n_type nc) (n_name nk) v = Val (Some (n_type nk, [0])) /\
+    e_create_sub_element RT REAL_LATEST c (n_name nk) w' = Val (ER ItemNameRequired, w2).
+Proof. exact copy_keeps_unnamed_nested. Qed.
